@@ -274,7 +274,10 @@ func runC06(c *Ctx) {
 	if c.Arg["transport"] != "" {
 		tr = []string{c.Arg["transport"]}
 	}
-	tw := PlanTunnels(c, TunOpts{N: 1, Transports: tr})
+	// the streams of the tunnel under observation are what is checked; in a third of the runs
+	// another tunnel carries traffic of its own at the same time
+	nt := 1 + c.T.Weighted(2, 1)
+	tw := PlanTunnels(c, TunOpts{N: nt, Transports: tr})
 	if !BootTun(c, tw, false) {
 		return
 	}
@@ -297,6 +300,10 @@ func runC06(c *Ctx) {
 		}
 	}
 	hostStream := c.T.Bool(1, 2)
+	if nt > 1 {
+		d += " || alongside " + buildStreamPlan(c, tw, tw.Plans[1], 1+c.T.Choose(8), 1+c.T.Choose(8), 9000, 9000, false)
+		c.S.Count("probe.second_tunnel_alongside")
+	}
 	installStalls(c, ns)
 	tw.Tuns = StartTunnels(c, tw.Plans)
 	for _, h := range tw.Tuns[0].Hosts {
@@ -304,9 +311,11 @@ func runC06(c *Ctx) {
 	}
 	RunTunnels(c, tw.Tuns, 40000)
 	t := tw.Tuns[0]
-	if t.Client.Failed != "" || t.Err != "" {
-		c.Infra("transport setup failed: %s %s", t.Client.Failed, t.Err)
-		return
+	for _, x := range tw.Tuns {
+		if x.Client.Failed != "" || x.Err != "" {
+			c.Infra("transport setup failed: %s %s", x.Client.Failed, x.Err)
+			return
+		}
 	}
 	v := CheckTunnel(c, t, tw.MC, "C06")
 	if vi := c.S.Viol; vi != nil && vi.Oracle == "C16" && strings.HasPrefix(vi.Sig, "malformed:DATA") {
